@@ -160,6 +160,10 @@ func (g *c16gen) structDoc(t reflect.Type, depth int) *dv {
 	// unknown keys: consumed by the inline field, or ignored
 	for k := g.rng.Intn(3); k > 0; k-- {
 		key := fmt.Sprintf("extra%d", g.rng.Intn(5))
+		if inline != nil && g.rng.Chance(25) {
+			// an unknown key that happens to spell the inline field's own (lower-cased) Go name is an unknown key
+			key = strings.ToLower(inline.Name)
+		}
 		if inline != nil {
 			it := inline.Type
 			for it.Kind() == reflect.Pointer {
